@@ -23,6 +23,13 @@ PI_addpath == [p \in P3 |-> CASE p = "A" -> Info("ebgp", 65001, 0)
                               [] p = "B" -> Info("ebgp", 65002, 1)
                               [] p = "C" -> [Info("ebgp", 65003, 2) EXCEPT !.sendmax = 2]]
 
+(* three route-server clients *)
+PI_rs == [p \in P3 |-> CASE p = "A" -> Info("rs", 65001, 0)
+                         [] p = "B" -> Info("rs", 65002, 1)
+                         [] p = "C" -> Info("rs", 65003, 2)]
+(* route-server clients never send LOCAL_PREF (variant 4 would make selection depend on it) *)
+RsVarCodes == {0, 1, 2, 3, 5}
+
 (* variant codes of a neighbour's routes (unique AS_PATH lengths across sources, see Speaker) *)
 VarCodes == 0..5
 ViaOf(pi, p) == IF p = "C" THEN 65001 ELSE 65003
